@@ -28,6 +28,9 @@ pub fn check(tier: Tier) -> Check {
     }
     // a Maximum Packet Size as well: a locally refused oversized publish must not take a slot
     parts.push(Part::new("C10/quota", json!({"depth": tier.pick(5, 7), "r": 2, "m": 40}), 0, tier.pick(25, 400)));
+    // persistent back-pressure on the write half (WriteBlock / WriteUnblock events)
+    parts.push(Part::new("C10/quota", json!({"depth": tier.pick(4, 5), "r": 1, "wb": true}), 1, tier.pick(25, 400)));
+    parts.push(Part::new("C10/quota", json!({"depth": tier.pick(4, 5), "r": 2, "wb": true}), 1, tier.pick(25, 400)));
     // identifier flavour: the counters start next to a boundary of their encodings (DESIGN 4)
     parts.push(Part::new("C10/quota", json!({"depth": tier.pick(5, 7), "r": 2, "ids": [65534, 1]}), 0, tier.pick(25, 400)));
     parts.push(Part::new("C10/quota", json!({"depth": tier.pick(5, 7), "r": 3, "ids": [254, 1]}), 0, tier.pick(25, 400)));
